@@ -46,10 +46,23 @@ EXHAUSTIVE = {"quick": True, "thorough": True}
 _INFO = None
 
 
+# used only when the translator cannot find its anchors any more (that is reported as tie_broken by the runner);
+# the adapters and the oracle keep working so that the search can still produce a concrete failing input
+FALLBACK = {
+    "rx_source": None, "key_sep": "-", "loop_order": [], "could_prefix": "Could not load the ",
+    "could_suffix": " guardrails configuration. An internal error has occurred.", "internal_reply": "Internal server error.",
+    "short_reply": "The `thread_id` must have a minimum length of 16 characters.", "thread_prefix": "thread-",
+    "handler_min": 16, "field_min": 16, "field_max": 255, "fallback": True,
+}
+
+
 def info():
     global _INFO
     if _INFO is None:
-        _INFO = tr.extract()
+        try:
+            _INFO = tr.extract()
+        except Exception:  # noqa  (TieBroken or a crash of the extractor)
+            _INFO = dict(FALLBACK)
     return _INFO
 
 
@@ -63,6 +76,8 @@ def translate():
 def static_tie():
     inf = info()
     probs = []
+    if inf.get("fallback"):
+        return probs  # already reported by translate()
     if inf["loop_order"] != ["regex", "commonprefix", "from_path"]:
         probs.append(f"_get_rails loop no longer runs regex test, common-prefix test, from_path in this order: {inf['loop_order']}")
     return probs
@@ -304,7 +319,7 @@ _ERRS = {"Invalid config_id.": "invalidId", "Access to the specified path is not
 def run_fn(case):
     api = _API
     inf = info()
-    rx = re.compile(inf["rx_source"])
+    rx = re.compile(inf["rx_source"]) if inf["rx_source"] is not None else None
     root = case["root"]
     _reset(root)
     cwd = os.getcwd()
@@ -322,7 +337,7 @@ def run_fn(case):
         except Exception as e:  # noqa
             res = {"err": "exc:" + type(e).__name__}
         j = os.path.join(base, cid)
-        out_ids.append({"calls": list(_REC["calls"]), "res": res, "join": j, "norm": os.path.normpath(j), "bad": rx.search(cid) is not None,
+        out_ids.append({"calls": list(_REC["calls"]), "res": res, "join": j, "norm": os.path.normpath(j), "bad": (rx.search(cid) is not None) if rx is not None else None,
                         "cached": list(api.llm_rails_instances.keys())})
     return {
         "cwd": cwd, "base": base, "ids": out_ids,
@@ -460,7 +475,7 @@ def compare(case, obs, mouts):
                 return f"os.path.join(base, {cid!r}) = {o['join']!r}, model {mo['join']!r}"
             if mo["norm"] != o["norm"]:
                 return f"normpath(join(base, {cid!r})) = {o['norm']!r}, model {mo['norm']!r}"
-            if mo["bad"] != o["bad"]:
+            if o["bad"] is not None and mo["bad"] != o["bad"]:
                 return f"re.search(reject, {cid!r}) = {o['bad']}, model {mo['bad']}"
             want = {"ok": [mo["res"]["ok"]]} if "ok" in mo["res"] else {"err": mo["res"]["err"]}
             if want != o["res"]:
